@@ -9,9 +9,16 @@ Local Open Scope Z_scope.
 (* T0: the theorems below are about the pattern the current Go source contains:
    this equation is checked against the regenerated GoRegex.v on every run *)
 Theorem C12_sign_pattern_is_the_source_pattern :
-  re_signRegexp = mkPat true (RCat (RStar (RCls cls_not_lt)) (RCat (RLit [c_sp; x3c])
-                    (RCat email_re (RCat (RLit [x3e; c_sp]) ts_re)))) true.
+  re_signRegexp = mkPat true sign_body_flat true.
 Proof. exact sign_regex_shape. Qed.
+
+(* ... whose language is that of  [^<]* " <" email "> " timestamp  (the
+   translator emits concatenations flattened; grouping does not matter) *)
+Theorem C12_sign_pattern_language : forall s,
+  lang sign_body_flat s <->
+  lang (RCat (RStar (RCls cls_not_lt)) (RCat (RLit [c_sp; x3c])
+         (RCat email_re (RCat (RLit [x3e; c_sp]) ts_re)))) s.
+Proof. exact sign_body_flat_eq. Qed.
 
 (* T1: the stored line has the Git form  Name <email> <unix-seconds> +HHMM|-HHMM *)
 Theorem C12_sign_shape : forall n e t off, 0 <= t ->
@@ -91,3 +98,4 @@ Print Assumptions C12_sign_roundtrip_quarter_hours.
 Print Assumptions C12_commit_roundtrip.
 Print Assumptions C12_log_reads_back_what_was_written.
 Print Assumptions C12_commit_then_log.
+Print Assumptions C12_sign_pattern_language.
